@@ -34,6 +34,9 @@ CHECKS = {
  'C17': ("reference-model monitor over recorded port trace (flat byte array replayed in observed arrival order), real component under random streams/configurations",
          "Held on N executions of the real simplebankedmemory component under seeded random request streams, timings and configurations (banks, interleave, pipeline width/depth/latency, row buffer, buffers, requester back-pressure): every request answered exactly once, every read byte equal to the flat model at its arrival point, final storage equal to the model. Exploration, not proof: the stream/configuration space is sampled.",
          "Trusts akita's port hooks for arrival order, the harness' flat model and generator; accesses stay inside one 64-byte line.", "DESIGN.md §3 C17"),
+ 'C18': ("end-to-end differential runs (same integer program on 1 GPU / unified 2-4 GPU device / plain 2-4 GPUs with distributed buffers, emulation and r9nano timing, one child process per run, compared bit-exactly with the single-GPU run and a host reference) + offline trace checker over the data and control ports of 2-4 real RDMA engines between fake L1 requesters, fake reordering L2 memories and a control peer driving drain/restart",
+         "Held on N end-to-end placements (quick ~114 runs, thorough ~1100; grids with partial last work-groups and work-group counts just above a multiple of the CU count; buffers distributed page-wise) and M RDMA scenarios (quick 1202 / ~110 000 transactions, thorough 40 002): multi-GPU and unified results bit-identical to the single-GPU run; every remote access forwarded exactly once to the owning engine and its L2 with unchanged payload and answered exactly once to the originator with the original id and the L2's data; every drain acknowledged with an empty open-transaction set; nothing lost after restart. Exploration, not proof.",
+         "Trusts akita port hooks and engine, the harness' fake L1/L2/control peers (control traffic as driver + CP produce it), the hand-assembled integer kernels and the host reference; floating-point workloads with reductions are left to C01's Verify().", "DESIGN.md §3 C18"),
  'C19': ("snapshot + reference-model monitor and port trace checker: real PageMigrationControllers with ideal or hostile memories under seeded migration sequences; real driver.Driver with a real page table between fake command processors and a fake MMU performing the migration handshake",
          "Held on N controller scenarios (destination page equals the source page at request time, every other byte of all memories unchanged, chunk pulls/writes cover the page exactly once, one completion per request after the last write, requests arriving during a migration served afterwards) and M driver handshakes (stage order, recipients, one reply per MMU request, page-table post-condition via PageTable.Find, no other mapping changed). Exploration, not proof.",
          "Trusts akita port hooks and serial engine, the fake memory / command processors / MMU (modelled on cp/ctrlMiddleware.go, driver.go, akita's mmu.go), the VerifDeviceIDByPAddr hook; the migration path is exercised through Driver.Tick without Driver.Run(); the shipped platform does not wire the controller, so there is no end-to-end run.", "DESIGN.md §3 C19"),
